@@ -65,10 +65,19 @@ MUX = gen.Opts(mux=True, max_depth=3, max_len=4, weights={'window': 9, 'tee': 5}
 PLAIN = gen.Opts(mux=False, max_depth=2, max_len=4, weights={'tee': 6, 'seq': 6})
 
 
+def big_enum(tier):
+    """batch sizes beyond CPython's small-int cache, alone and inside tumbling windows"""
+    for n in (256, 257, 300):
+        yield {'tin': 'int', 'p': [['batch', n]], 'items': [i % 5 for i in range(2 * n + 3)]}
+        yield {'tin': 'int', 'p': [['roll', n + 100, n + 100, [['batch', n]]]], 'items': [i % 5 for i in range(2 * n + 250)]}
+
+
 def subs(tier):
     return [
         Sub('mux', check_mux, gen=lambda: H.pipeline_case(MUX, max_items=14, min_len=1), examples={'quick': 2500, 'thorough': 250000},
             doc='with_memory_store(pipeline) on a stepped source vs timed model, per-step multisets'),
+        Sub('big', check_mux, enum=big_enum, doc='large batch sizes (256, 257, 300), alone and inside roll: every batch appears with its closing item'),
+        Sub('big_plain', check_plain, enum=lambda tier: (c for c in big_enum(tier) if c['p'][0][0] == 'batch'), doc='the same on plain observables'),
         Sub('plain', check_plain, gen=lambda: H.pipeline_case(PLAIN, max_items=14, min_len=1), examples={'quick': 1500, 'thorough': 120000},
             doc='the dual-mode operators on a plain stepped observable (take/first complete early) vs timed model'),
     ]
